@@ -20,7 +20,7 @@ ASSUMPTIONS = [
     'graceful restarts only (an attempt cut by a kill is legitimately repeated with the same retry number)',
     'the API-server model and virtual time of kopfsim; liveness bound = sum of requested delays + 60 s',
 ]
-BUDGET = {'quick': 40, 'thorough': 1500}
+BUDGET = {'quick': 40, 'thorough': 1000}
 EPS = 1e-6
 
 
